@@ -743,3 +743,120 @@ class DataCopyMasked(Contract):
 
 
 CONTRACTS = CONTRACTS + [DataCopyMasked]
+
+
+class DrillholeClipNative(Contract):
+    """Drillholes are selected as a whole by their collar (Drillhole.mask_by_extent: "uses the collar
+    location only"): a box that holds the collar yields a copy of the hole with its surveys and all
+    of its logs, a box that does not yields nothing, the inverse option swaps the two -- for plain
+    drillholes and for holes of a drillhole group alike, with or without data."""
+    target = "geoh5py/objects/drillhole.py::Drillhole.mask_by_extent"
+    variant = "whole-hole-by-collar"
+    symbolic = False
+    has_native = True
+    props = ("C13",)
+    bounded_scope = "plain and grouped (concatenated) drillholes x {no data, a depth log, a depth log and an interval table} x 4 boxes (around the collar, touching it, away from it but over the trace, far away) x both inverse values x 2-D and 3-D boxes (exhaustive)"
+
+    def native_cases(self, tier, rng):
+        for grouped in (False, True):
+            for data in ("none", "depth", "depth+interval"):
+                for box in ("around", "touching", "over-trace-only", "far"):
+                    for inverse in (False, True):
+                        for dim in (2, 3):
+                            yield {"grouped": grouped, "data": data, "box": box, "inverse": inverse, "dim": dim}
+
+    def native_check(self, case):
+        import os
+        import shutil
+        import tempfile
+
+        from geoh5py.groups import ContainerGroup, DrillholeGroup
+        from geoh5py.objects import Drillhole
+        from geoh5py.workspace import Workspace
+
+        collar = np.array([10.0, 20.0, 100.0])
+        boxes = {"around": [[5.0, 15.0, 50.0], [15.0, 25.0, 150.0]], "touching": [[10.0, 20.0, 100.0], [30.0, 40.0, 120.0]],
+                 "over-trace-only": [[40.0, 15.0, -100.0], [80.0, 25.0, 99.0]], "far": [[500.0, 500.0, 0.0], [600.0, 600.0, 10.0]]}
+        box = np.array(boxes[case["box"]])[:, : case["dim"]]
+        inside = case["box"] in ("around", "touching")
+        d = tempfile.mkdtemp()
+        try:
+            with Workspace.create(os.path.join(d, "h.geoh5"), version=2.0) as ws:
+                parent = DrillholeGroup.create(ws, name="DH") if case["grouped"] else ContainerGroup.create(ws, name="G")
+                target = ContainerGroup.create(ws, name="clips") if not case["grouped"] else DrillholeGroup.create(ws, name="DHclips")
+                hole = Drillhole.create(ws, name="hole", parent=parent, collar=collar, surveys=np.c_[np.r_[0.0, 50.0, 100.0], np.ones(3) * 90.0, np.ones(3) * -45.0])
+                logs = {}
+                if case["data"] != "none":
+                    logs["log"] = np.arange(4.0)
+                    hole.add_data({"log": {"depth": np.array([10.0, 20.0, 30.0, 40.0]), "values": logs["log"]}})
+                if case["data"] == "depth+interval":
+                    logs["assay"] = np.arange(2.0) + 7
+                    hole.add_data({"assay": {"from-to": np.array([[5.0, 15.0], [15.0, 25.0]]), "values": logs["assay"]}})
+                try:
+                    out = hole.copy_from_extent(box, parent=target, inverse=case["inverse"])
+                except Exception as exc:
+                    return f"copy_from_extent raised {type(exc).__name__}: {exc} ({case})"
+                want = inside != case["inverse"]
+                if not want:
+                    # "nothing is returned only when the box misses the bounding box or no element qualifies"
+                    return None if out is None else f"a hole whose collar does not qualify was copied ({case})"
+                if out is None:
+                    if case["inverse"] and not inside:
+                        return None  # the box misses the hole's bounding box (its collar): nothing returned is allowed
+                    return f"the collar qualifies but nothing was copied ({case})"
+                got_collar = np.array([out.collar["x"], out.collar["y"], out.collar["z"]], dtype=float)
+                if not np.allclose(got_collar, collar) or not np.allclose(np.asarray(out.surveys, dtype=float), np.asarray(hole.surveys, dtype=float)):
+                    return f"the copied hole has another collar or other surveys ({case})"
+                for name, vals in logs.items():
+                    dat = out.get_data(name)
+                    src = np.asarray(hole.get_data(name)[0].values, dtype=float)
+                    if not dat or dat[0].values is None or not np.array_equal(np.asarray(dat[0].values, dtype=float), src, equal_nan=True):
+                        return f"log '{name}' of the copied hole is {None if not dat or dat[0].values is None else np.asarray(dat[0].values).tolist()}, the source holds {src.tolist()} ({case})"
+            return None
+        finally:
+            shutil.rmtree(d, ignore_errors=True)
+
+
+CONTRACTS = CONTRACTS + [DrillholeClipNative]
+
+
+class WholeObjectDataClip(Contract):
+    """Data that belong to the object as a whole (OBJECT association: a few numbers, a note) have no
+    per-element entries to select: a clip that keeps part of the object carries them over unchanged,
+    next to the selected vertex / cell data."""
+    target = "geoh5py/objects/grid2d.py::Grid2D.copy_from_extent"
+    variant = "whole-object-data"
+    symbolic = False
+    has_native = True
+    props = ("C13",)
+    bounded_scope = "points, curve, surface, 2-D grid, block model with element data plus an object-associated numeric array (3 values) and an object-associated text; box keeping part of the object; plain and inverse (exhaustive)"
+
+    def native_cases(self, tier, rng):
+        for kind in ("points", "curve", "surface", "grid2d", "blockmodel"):
+            for inverse in (False, True):
+                yield {"kind": kind, "inverse": inverse}
+
+    def native_check(self, case):
+        from contracts.copy_wf import EXTENTS, build
+        from geoh5py.workspace import Workspace
+
+        with Workspace() as ws:
+            obj = build(ws, case["kind"])
+            obj.add_data({"whole_numbers": {"values": np.array([7.0, 8.0, 9.0]), "association": "OBJECT"}})
+            obj.add_data({"whole_note": {"values": "surveyed in 2019", "association": "OBJECT", "type": "text"}})
+            try:
+                out = obj.copy_from_extent(EXTENTS["keeps-part"], inverse=case["inverse"])
+            except Exception as exc:
+                return f"clipping a {case['kind']} that holds object-associated data raised {type(exc).__name__}: {exc} ({case})"
+            if out is None:
+                return None  # nothing qualifies (a surface whose remaining vertices form no cell): nothing to carry over
+            num = [c for c in out.children if c.name == "whole_numbers"]
+            note = [c for c in out.children if c.name == "whole_note"]
+            if len(num) != 1 or num[0].values is None or not np.allclose(np.asarray(num[0].values, dtype=float), [7.0, 8.0, 9.0]):
+                return f"the object-associated numbers of the clipped {case['kind']} read {[None if c.values is None else np.asarray(c.values).tolist() for c in num]} instead of [7, 8, 9] ({case})"
+            if len(note) != 1 or str(note[0].values) != "surveyed in 2019":
+                return f"the object-associated note of the clipped {case['kind']} reads {[c.values for c in note]} ({case})"
+        return None
+
+
+CONTRACTS = CONTRACTS + [WholeObjectDataClip]
